@@ -906,6 +906,11 @@ func (n *RegexNode) canBeMadeAtomic(subsequent *RegexNode, iterateNullableSubseq
 			return false
 		}
 
+		// \z, \Z and $ end the possibilities of a loop that moves towards the end of
+		// the text. A right-to-left loop (RightToLeft, a lookbehind body) moves away
+		// from it: there the anchor can only hold if the loop gives characters back.
+		ltr := (n.Options & RightToLeft) == 0
+
 		// If the successor is an alternation, all of its children need to be evaluated, since any of them
 		// could come after this node.  If any of them fail the optimization, then the whole node fails.
 		// This applies to expression conditionals as well, as long as they have both a yes and a no branch (if there's
@@ -934,9 +939,9 @@ func (n *RegexNode) canBeMadeAtomic(subsequent *RegexNode, iterateNullableSubseq
 				(subsequent.IsNotoneFamily() && subsequent.M > 0 && n.Ch == subsequent.Ch) ||
 				(subsequent.IsSetFamily() && subsequent.M > 0 && !subsequent.Set.CharIn(n.Ch)) ||
 				(subsequent.T == NtMulti && n.Ch != subsequent.firstMatchedCharOfMulti()) ||
-				(subsequent.T == NtEnd) ||
-				(subsequent.T == NtEndZ && n.Ch != '\n') ||
-				(subsequent.T == NtEol && n.Ch != '\n') {
+				(ltr && subsequent.T == NtEnd) ||
+				(ltr && subsequent.T == NtEndZ && n.Ch != '\n') ||
+				(ltr && subsequent.T == NtEol && n.Ch != '\n') {
 				return true
 			}
 
@@ -957,7 +962,7 @@ func (n *RegexNode) canBeMadeAtomic(subsequent *RegexNode, iterateNullableSubseq
 			if (subsequent.T == NtOne && n.Ch == subsequent.Ch) ||
 				(subsequent.IsOneFamily() && subsequent.M > 0 && n.Ch == subsequent.Ch) ||
 				(subsequent.T == NtMulti && n.Ch == subsequent.firstMatchedCharOfMulti()) ||
-				(subsequent.T == NtEnd) {
+				(ltr && subsequent.T == NtEnd) {
 				return true
 			}
 
@@ -973,9 +978,9 @@ func (n *RegexNode) canBeMadeAtomic(subsequent *RegexNode, iterateNullableSubseq
 				(subsequent.IsOneloopFamily() && subsequent.M > 0 && !n.Set.CharIn(subsequent.Ch)) ||
 				(subsequent.IsSetloopFamily() && subsequent.M > 0 && !n.Set.MayOverlap(subsequent.Set)) ||
 				(subsequent.T == NtMulti && !n.Set.CharIn(subsequent.firstMatchedCharOfMulti())) ||
-				(subsequent.T == NtEnd) ||
-				(subsequent.T == NtEndZ && !n.Set.CharIn('\n')) ||
-				(subsequent.T == NtEol && !n.Set.CharIn('\n')) {
+				(ltr && subsequent.T == NtEnd) ||
+				(ltr && subsequent.T == NtEndZ && !n.Set.CharIn('\n')) ||
+				(ltr && subsequent.T == NtEol && !n.Set.CharIn('\n')) {
 				return true
 			}
 
